@@ -113,8 +113,10 @@ class Pool():
         except:
             if worker:
                 with self._workers_lock:
-                    self._workers.pop(worker.id, None)
-                    self._queues.pop(worker.id, None)
+                    # only forget the worker that failed - with a duplicated id the entry belongs to another worker
+                    if self._workers.get(worker.id) is worker:
+                        self._workers.pop(worker.id, None)
+                        self._queues.pop(worker.id, None)
 
                 worker.terminate()
             raise
